@@ -535,12 +535,43 @@ CLOSED = [("Part_init_establishes_wf", closed_part_init_establishes_wf),
 
 
 # ------------------------------------------------------------------------------------------------ bounded: histories
+class _ById:
+    """a mapping keyed by the identity of the object"""
+
+    def __init__(self):
+        self.d = {}
+
+    def __contains__(self, o):
+        return id(o) in self.d
+
+    def __setitem__(self, o, v):
+        self.d[id(o)] = (o, v)
+
+    def pop(self, o):
+        return self.d.pop(id(o))[1]
+
+    def items(self):
+        return list(self.d.values())
+
+
+def _remove_identical(lst, o):
+    for i, x in enumerate(lst):
+        if x is o:
+            del lst[i]
+            return
+    raise ValueError("object not in the list")
+
+
+def _same_objects(a, b):
+    return len(a) == len(b) and all(x is y for x, y in zip(a, b))
+
+
 class RefModel:
     """reference model of a part: registries by time, quarter step function"""
 
     def __init__(self, q):
-        self.start = {}  # obj -> time
-        self.end = {}
+        self.start = _ById()  # obj -> time (objects are told apart by identity, not by their own __eq__/__hash__)
+        self.end = _ById()
         self.sreg = {}  # time -> {cls: [objs]}
         self.ereg = {}
         self.q = [(0, q)]
@@ -567,10 +598,10 @@ class RefModel:
     def remove(self, o, which):
         if which in ("start", "both") and o in self.start:
             t = self.start.pop(o)
-            self.sreg[t][type(o)].remove(o)
+            _remove_identical(self.sreg[t][type(o)], o)
         if which in ("end", "both") and o in self.end:
             t = self.end.pop(o)
-            self.ereg[t][type(o)].remove(o)
+            _remove_identical(self.ereg[t][type(o)], o)
 
     def setq(self, t, qv):
         """documented list semantics: an entry at t is replaced; otherwise a new entry is recorded unless it is redundant
@@ -625,7 +656,7 @@ def _check_state(b, part, model, hist, queries=True):
         for reg, mreg, attr in ((p.starting_objects, model.sreg, "start"), (p.ending_objects, model.ereg, "end")):
             got = {c: list(v) for c, v in reg.items() if len(v)}
             want = {c: list(v) for c, v in mreg.get(p.t, {}).items() if len(v)}
-            if got != want:
+            if set(got) != set(want) or not all(_same_objects(got[c], want[c]) for c in got):
                 ok, what = False, "registry at t=%d (%s) differs from model" % (p.t, attr)
             for c, objs in got.items():
                 for o in objs:
@@ -657,14 +688,14 @@ def _check_state(b, part, model, hist, queries=True):
                         # graph; compare as multisets per time point order
                         if sorted(map(id, got)) != sorted(map(id, want)):
                             okq, whatq = False, "iter_all(None) returns a different set of objects"
-                    elif got != want:
+                    elif not _same_objects(got, want):
                         okq, whatq = False, "iter_all(%s, %r, %r, include_subclasses=%r, mode=%s): %d objects, model %d (or different order)" % (
                             cls.__name__, s, e, incl, mode, len(got), len(want))
     pts = list(part._points)
     for i, p in enumerate(pts):
         nxt = [o for q in pts[i + 1:] for o in q.iter_starting(sc.GenericNote, include_subclasses=True)]
         prv = [o for q in reversed(pts[:i]) for o in q.iter_starting(sc.GenericNote, include_subclasses=True)]
-        if list(p.iter_next(sc.GenericNote, include_subclasses=True)) != nxt or list(p.iter_prev(sc.GenericNote, include_subclasses=True)) != prv:
+        if not _same_objects(list(p.iter_next(sc.GenericNote, include_subclasses=True)), nxt) or not _same_objects(list(p.iter_prev(sc.GenericNote, include_subclasses=True)), prv):
             okq, whatq = False, "iter_next/iter_prev from t=%d differ from the registered objects in time order" % p.t
     # every class / eq / include_subclasses combination, against the model's registries (per point as a multiset: the order of
     # different classes inside one point is not stated)
@@ -700,7 +731,10 @@ def _run_history(b, ops, every_step=True):
     part = sc.Part("P", quarter_duration=2)
     model = RefModel(2)
     objs = {}
-    mk = {"N": lambda: sc.Note("C", 4), "R": lambda: sc.Rest(), "M": lambda: sc.Measure(), "G": lambda: sc.GraceNote("grace", "D", 4)}
+    mk = {"N": lambda: sc.Note("C", 4), "R": lambda: sc.Rest(), "M": lambda: sc.Measure(), "G": lambda: sc.GraceNote("grace", "D", 4),
+          # objects that carry the same values (two of each are used): a part holds each OBJECT that was added, whatever it says
+          "T": lambda: sc.TimeSignature(3, 4), "K": lambda: sc.KeySignature(-2, "minor"), "B": lambda: sc.Barline("light-heavy"),
+          "C": lambda: sc.Clef(staff=1, sign="G", line=2, octave_change=0), "Q": lambda: sc.Tempo(120, "q")}
     hist = []
     for op in ops:
         hist.append(list(op))
@@ -752,6 +786,17 @@ def _op_universe():
     return ops
 
 
+def _twin_universe():
+    """operations over pairs of objects of one class with the same attribute values"""
+    ops = []
+    for name in ("T1", "T2", "K1", "K2", "B1", "B2", "C1", "C2", "Q1", "Q2", "R1", "R2"):
+        for (s, e) in ((0, None), (0, 2), (2, None), (2, 5)):
+            ops.append(("add", name, s, e))
+        for which in ("start", "both"):
+            ops.append(("rm", name, which))
+    return ops
+
+
 def bounded(b):
     import random
     U = _op_universe()
@@ -772,6 +817,16 @@ def bounded(b):
     for _ in range(nrand):
         k = rng.randint(3, 7)
         _run_history(b, [rng.choice(U) for _ in range(k)], every_step=not quick)
+    # equal-valued objects of one class at one time: both stay registered, removing one leaves the other
+    U2 = _twin_universe()
+    rng2 = random.Random(b.seed + 1)
+    for cls_letter in "TKBCQR":
+        a1, a2 = cls_letter + "1", cls_letter + "2"
+        _run_history(b, [("add", a1, 0, None), ("add", a2, 0, None), ("add", a1, None, 2), ("rm", a1, "both"), ("rm", a2, "both")], every_step=True)
+        _run_history(b, [("add", a1, 0, 2), ("add", a2, 0, 2), ("rm", a2, "start"), ("add", a2, 2, None), ("rm", a1, "both")], every_step=True)
+    for _ in range(60 if quick else 600):
+        k = rng2.randint(3, 8)
+        _run_history(b, [rng2.choice(U2) for _ in range(k)], every_step=not quick)
     _point_primitives(b)
 
 
